@@ -54,7 +54,7 @@ func containsSym(v value) bool {
 	switch v := v.(type) {
 	case *Term:
 		return true
-	case symstr:
+	case symstr, opaqueStr:
 		return true
 	case structure:
 		for _, f := range v {
@@ -69,6 +69,8 @@ func containsSym(v value) bool {
 			}
 		}
 	case iface:
+		return containsSym(v.v)
+	case uniqH:
 		return containsSym(v.v)
 	}
 	return false
@@ -270,9 +272,13 @@ func (i *interpreter) chanClose(c *chanV) {
 
 // runGoroutines runs queued `go` calls to completion in FIFO order.
 func (i *interpreter) runGoroutines() {
+	ran := len(i.goq) > 0
 	for len(i.goq) > 0 {
 		f := i.goq[0]
 		i.goq = i.goq[1:]
 		f()
+	}
+	if ran {
+		i.raceJoin()
 	}
 }
